@@ -197,6 +197,8 @@ def run(ctx):
             items.append((base + (vs, vr, 0, 0), full[k:k + chunk], [0]))
     for r in ctx.pmap(run_config, items, chunksize=4):
         ctx.merge(r)
+    from vlib.props import c03_sched
+    c03_sched.run(ctx, family="metadata")
     c = ctx.cov
     c["configurations"] = nprod
     c["bursts_in_full_set"] = len(full)
@@ -215,6 +217,9 @@ def run(ctx):
 
 
 def replay(ctx, case):
+    if case.get("sched"):
+        from vlib.props import c03_sched
+        return c03_sched.replay(ctx, case)
     if "gen" in case:
         gen, bad = generator_bursts()
         for name, got, want, n in bad:
